@@ -137,6 +137,9 @@ InconsistentWorkbooks ==
    RawMk(Shapes[5], [a |-> "FUSED", b |-> "ROADM", c |-> "ROADM", d |-> "ROADM"], <<>>, 0),
    RawMk(Shapes[7], [a |-> "ROADM", b |-> "ROADM", c |-> "FUSED", d |-> "ROADM"], <<>>, 1),
    RawMk(Shapes[2], [a |-> "ROADM", b |-> "FUSED", c |-> "ROADM"], <<Row("b", "c", AmpA, AmpN)>>, 0),
+   \* the FUSED site's own line says what the Nodes sheet says (no amplifier: 'fused' on both sides), or nothing at all
+   RawMk(Shapes[8], [a |-> "ROADM", b |-> "FUSED", c |-> "ROADM"], <<Row("a", "b", AmpC, AmpN), Row("b", "a", AmpF, AmpF)>>, 1),
+   RawMk(Shapes[4], [a |-> "ROADM", b |-> "ROADM", c |-> "FUSED"], <<Row("c", "a", AmpN, AmpN)>>, 2),
    RawMk(Shapes[6], [a |-> "ROADM", b |-> "FUSED", c |-> "FUSED", d |-> "ROADM"], <<Row("b", "a", AmpC, AmpA), Row("a", "b", AmpA, AmpN)>>, 2)}
 \* every Service sheet in three layouts: contiguous rows, empty lines between blocks of rows, empty first line
 ServiceWorkbooks == {[w EXCEPT !.blanks.services = g] : w \in ServiceWorkbooks0, g \in {<<>>, <<0, 1, 2>>, <<2, 0, 1>>}}
@@ -166,6 +169,7 @@ ModelEndpointsExist == Ok => EndpointsExist(topo)
 ModelSiteInventory  == Ok => SiteInventory(wb, topo, Index(topo))
 ModelFibres         == Ok => FibrePerDirection(wb, topo, Index(topo))
 ModelContinuity     == Ok => Continuity(wb, topo, Index(topo))
+ModelCrossed        == Ok => CrossedThroughOwnElement(wb, topo, Index(topo))
 ModelAmpFaces       == Ok => AmpFacesNeighbour(wb, topo, Index(topo))
 ModelBlankAmps      == Ok => UndescribedAmpsAreBlank(wb, topo, Index(topo))
 ModelPerDegree      == Ok => PerDegreeTargets(wb, topo, Index(topo))
